@@ -177,6 +177,46 @@ class Sim:
                 ret = hc.set_many({k: uniq for k in allkeys})
             elif name == "delete_many":
                 ret = hc.delete_many(allkeys)
+            elif name in ("setmanyget", "setmanyget_pairs"):
+                # what set_many does not report as failed must be found by an immediately following get
+                if name == "setmanyget":
+                    ks = list(allkeys)
+                else:
+                    ks = [(self.keys[n][t % len(self.keys[n])], "bare-%d-%d" % (j, t))
+                          for j, n in enumerate(self.names) for t in range(4)]
+                vals = {k: uniq + b"-%d" % j for j, k in enumerate(ks)}
+                m2 = {n: len(s.cmdlog) for n, s in self.servers.items()}
+                c2 = len(net.contacts)
+                rot0 = sorted(hc.hasher.nodes)
+                failed = hc.set_many(vals)
+                failed_set = set(failed)
+                rot1 = set(hc.hasher.nodes)
+                # where did each key's set go?  What was written to a server that this very call took out of rotation is not
+                # promised to later reads (same rule as for set-then-get); everything else is.
+                setdest = {}
+                for n_, s_ in self.servers.items():
+                    for c_ in s_.cmdlog[m2[n_]:]:
+                        if c_.verb == b"set":
+                            for k_ in c_.keys:
+                                setdest.setdefault(k_.decode(), set()).add(n_)
+                ks = [k for k in ks if all(n_ in rot1 and self.servers[n_].health == "up"
+                                           for n_ in setdest.get(k[1] if isinstance(k, tuple) else k, {"<none>"}))]
+                set_contacted_failing = any(not ok for (_, _, ok, _) in net.contacts[c2:])
+                ret = ("setmany", sorted(map(repr, failed)))
+                for k in ks:
+                    bare = k[1] if isinstance(k, tuple) else k
+                    if bare in failed_set or k in failed_set:
+                        continue
+                    m3 = {n: len(s.cmdlog) for n, s in self.servers.items()}
+                    c3 = len(net.contacts)
+                    got = hc.get(k)
+                    dest = [n for n, s in self.servers.items() if len(s.cmdlog) > m3[n]]
+                    bad_contact = any(not ok for (_, _, ok, _) in net.contacts[c3:])
+                    if len(dest) == 1 and self.servers[dest[0]].health == "up" and not bad_contact and got != vals[k]:
+                        self.v("set_many-success-not-found-by-get:%s" % name,
+                               "set_many reported %r as stored (failed list %r) but get(%r) on healthy %s returned %r (expected %r)"
+                               % (k, failed, k, dest[0], got, vals[k]))
+                        break
             else:
                 raise ValueError(name)
         except Exception as e:
@@ -222,7 +262,9 @@ class Sim:
         dup = [(vb, k, n_) for (vb, k), n_ in times.items() if n_ > 1]
         if dup:
             self.v("command-issued-twice:%s" % name, "%s sent %r (verb, key, times) in one call" % (name, dup[:3]))
-        involved = [key] if name not in ("get_many", "set_many", "delete_many") else allkeys
+        involved = [key] if name not in ("get_many", "set_many", "delete_many", "setmanyget") else allkeys
+        if name == "setmanyget_pairs":
+            involved = []          # routed by server key: ownership of the bare keys is not what placement assigns
         for k in involved:
             o = self.owner[k]
             dest = reached.get(k, set())
@@ -337,7 +379,7 @@ def run_sequence(res, cfg, seq, epilogue=False, label="exh"):
 
 def reduced_alphabet():
     A = []
-    for name in ("get", "set", "setget", "get_many", "set_many"):
+    for name in ("get", "set", "setget", "get_many", "set_many", "setmanyget"):
         A.append(("op", name, 0))
     A += [("op", "get", 1), ("op", "setget", 1)]
     A += [("adv", 1), ("adv", 11), ("adv", 101)]
@@ -351,7 +393,8 @@ def random_sequence(rng, nserv):
     for _ in range(n):
         c = rng.random()
         if c < 0.55:
-            seq.append(("op", rng.choice(["get", "set", "setget", "delete", "incr", "touch", "get_many", "set_many", "delete_many"]),
+            seq.append(("op", rng.choice(["get", "set", "setget", "delete", "incr", "touch", "get_many", "set_many", "delete_many",
+                                          "setmanyget", "setmanyget_pairs", "setmanyget_pairs"]),
                         rng.randrange(nserv), rng.randrange(2)))
         elif c < 0.8:
             seq.append(("adv", rng.choice([1, 1, 10, 11, 11, 50, 100, 101, 201])))
@@ -379,6 +422,22 @@ def shard(tier, seed, idx, n):
         cfg = cfgs[(work // n) % len(cfgs)]
         path = run_sequence(res, cfg, seq, epilogue=(work // n) % 40 == 0)
         states.update(path)
+    # targeted: a server stays down while the same multi-key write is repeated across the retry / give-up / dead phases
+    if idx == 0:
+        for nserv in (2, 3):
+            for ra in (0, 1, 2):
+                for ign in (False, True):
+                    for pool in (False, True):
+                        for bad in range(nserv):
+                            for kind in ("refused", "reset"):
+                                for opn in ("setmanyget_pairs", "setmanyget", "set_many"):
+                                    seq = [("op", opn, 0), ("fail", bad, kind)]
+                                    for step in range(6):
+                                        seq += [("op", opn, bad), ("adv", 11)]
+                                    seq += [("ok", bad), ("adv", 101), ("op", opn, bad), ("adv", 101), ("op", opn, bad)]
+                                    path = run_sequence(res, (nserv, ra, ign, pool), seq, epilogue=False, label="targeted")
+                                    states.update(path)
+                                    res.count("targeted_sequences")
     rng = random.Random(seed * 15485863 + idx)
     count = 60 if tier == "quick" else 1500
     for i in range(count):
